@@ -6,7 +6,7 @@ namespace Verif.Driver.C01N
 open Verif Verif.Driver
 
 namespace M
-export Verif.Model.JsNumber (minifyNumLit printNumLit tokOf memberDot groupDot notLit falsyScan Tok)
+export Verif.Model.JsNumber (minifyNumLit printNumLit tokOf memberDot groupDot notLit falsyLit Tok)
 export Verif.Model.JsNumber.JsNumberDec (number)
 end M
 namespace S
@@ -40,7 +40,7 @@ def all : Handler := fun args => do
   let o (x : Option (List Char)) : List Bytes :=
     match x with | none => [boolBytes false, []] | some t => [boolBytes true, cb t]
   .ok (listReply (o (M.minifyNumLit s) ++ o (M.memberDot s name) ++ o (M.groupDot s name) ++ o (M.notLit s)
-    ++ [boolBytes (M.falsyScan s)]))
+    ++ [boolBytes (M.falsyLit s)]))
 
 /-- `model.c01n.number s` → the private copy of `minify.Number(s, 0)` -/
 def number : Handler := fun args => do
